@@ -205,7 +205,7 @@ def oracle(c):
             sub = views[ch][a:b]
             out.append(sub if st == 43 else _revcomp(sub))
         return {"rows": out, "enc_same": True}
-    if op == "translate":
+    if op in ("translate", "translate_enc"):
         rows = c["rows"]
         if any(len(r) % 3 for r in rows) or any(_up(b) not in (65, 67, 71, 84) for r in rows for b in r):
             return SKIP
@@ -214,7 +214,7 @@ def oracle(c):
             t = _translate(r)
             _bio_check("tr", [_up(b) for b in r], t)
             out.append(t)
-        if c.get("via", "list").startswith("enc:"):
+        if op == "translate_enc":   # already alphabet-encoded input: the code refuses loudly (EncodingException)
             return {"rows_or_encoding_error": out}
         return {"rows": out}
     raise ValueError(op)
@@ -226,12 +226,6 @@ def agree(c, got, exp):
             return True
         return isinstance(got, dict) and got.get("rows") == exp["rows_or_encoding_error"]
     return core.canon(got) == core.canon(exp)
-
-
-def agree_model(c, got, m):
-    if c["op"] == "translate" and c.get("via", "list").startswith("enc:"):
-        return True   # the model describes the text entry; encoded input is compared with the oracle only
-    return core.canon(got) == core.canon(m)
 
 
 # --------------------------------------------------------------------------- implementation
@@ -309,7 +303,7 @@ def impl(c):
                 r = gs.extract_intervals(bed, stranded=True)
             rows, enc = _rows_out(r, E)
             return {"rows": rows, "enc_same": bool(enc == E)}
-        if op == "translate":
+        if op in ("translate", "translate_enc"):
             via = c.get("via", "list")
             texts = [_text(r) for r in c["rows"]]
             if via == "entry":
@@ -425,7 +419,7 @@ def cases(tier, rng):
         yield {"op": "translate", "rows": [cd], "via": "list"}
         yield {"op": "translate", "rows": [[b + 32 for b in cd]], "via": "list"}
         yield {"op": "translate", "rows": [[b + 32 * rng.randrange(2) for b in cd]], "via": rng.choice(["list", "entry", "ragged"])}
-        yield {"op": "translate", "rows": [cd], "via": "enc:" + rng.choice(["ACGT", "ACGTN"])}
+        yield {"op": "translate_enc", "rows": [cd], "via": "enc:" + rng.choice(["ACGT", "ACGTN"])}
     yield {"op": "translate", "rows": [[b for cd in codons for b in cd]], "via": "list"}
     yield {"op": "translate", "rows": codons, "via": "list"}
     pairs = [(a, b) for a in codons for b in codons]
